@@ -40,7 +40,7 @@ CLAIMED["C11"] = dict(
     category="translation_validation",
     text="For every parameter-list shape (<= 2 parameters per kind, every legal default mask; 756 shapes) the def is converted by the real converter and a symbolic call battery (number of positionals, keyword subset incl. an unknown name, direct/star call, symbolic default values) is applied to the function objects of exec(source) and eval(converted): both must return the same bound values or both raise TypeError.",
     design_ref="DESIGN.md section 4, C11",
-    note="Trusted: CPython's argument binding (both callables are real functions), CrossHair+z3. Bounds: quick = all shapes with <= 2 parameters + 170 seed-rotated shapes, <= 3 positionals, keyword subsets none/singles/two pairs; thorough = all 756 shapes, <= 5 positionals, all keyword subsets up to 96. Annotations are metadata.",
+    note="Trusted: CPython's argument binding (both callables are real functions), CrossHair+z3. Bounds: quick = all shapes with <= 2 parameters + 170 seed-rotated shapes, <= 3 positionals, keyword subsets none/singles/two pairs; thorough = all 756 shapes, <= 5 positionals, all keyword subsets up to 96. Plus 58 placement templates (function created in another scope; 48 of them: defaults naming a variable spelled like a parameter, lambda/def x 4 signatures x 6 defining scopes). Annotations are metadata.",
     technique="symbolic call-shape battery over source and converted function objects under CrossHair (z3)",
 )
 CLAIMED["C12"] = dict(
@@ -55,7 +55,7 @@ CLAIMED["C02"] = dict(
     category="other",
     text="Program-quantified obligation without a data dimension: family programs, out-of-fragment shape programs and standard-library modules with unsupported statements stripped are converted by the real converter under all 8 option combinations; whenever conversion returns, the text must contain no line break, compile in eval mode and (ast.unparse path) parse back to the emitted AST after removal of the newline. z3 decides the quantified statement over the table; each table entry is decided by CPython's compiler. The line-break obligation for arbitrary string contents is the C04 kernel.",
     design_ref="DESIGN.md section 4, C02",
-    note="The deciding step of each entry is CPython 3.12's compile(), not the solver (stated in the evidence). Bounds: the program families of vf/checks/c02.py (incl. the slot product 69 expression slots x 34 expression kinds + 14 index slots x 16 index kinds x module/function/class, and 39 scripts that parse but that CPython refuses to compile); stdlib modules <= 25 kB (quick) / 80 kB (thorough).",
+    note="The deciding step of each entry is CPython 3.12's compile(), not the solver (stated in the evidence). Bounds: the program families of vf/checks/c02.py (incl. the slot product 69 expression slots x 34 expression kinds + 14 index slots x 16 index kinds x module/function/class, the identifier product 29 identifier positions x 19 spellings (keyword-normalising, soft keywords, non-ASCII) x module/function/class, and 39 scripts that parse but that CPython refuses to compile); stdlib modules <= 25 kB (quick) / 80 kB (thorough).",
     technique="table extracted by running the real converter + CPython compile(); z3 query over the table",
     engine="z3 (table query) + CPython compiler",
 )
@@ -85,7 +85,7 @@ CLAIMED["C09"] = dict(
     category="translation_validation",
     text="The finite matrix (risky identifier x role x converter feature): the identifier set is re-derived on every run from what the converter emits (plus the builtins the generated code calls and a control name); each cell is a small program converted by the real converter and co-executed with the source under CrossHair with symbolic stored values. Distinctness of __ol_ temporaries is checked on every output (real RNG).",
     design_ref="DESIGN.md section 4, C09",
-    note="Bounds: 22 identifiers x 11 roles x 28 features x up to 5 access paths (direct / lambda / generator expression / nested def / lambda with a shadowing inner parameter) = 9 944 cells (quick: control cells + 1 000 seed-rotated); 408 nested / sequential pairs of the 16 constructs that introduce temporaries; suffix provenance (every random suffix of an output was drawn during that conversion). Known findings listed by explicit cell (builtins the generated code calls; __class__).",
+    note="Bounds: 22 identifiers x 11 roles x 28 features x up to 5 access paths (direct / lambda / generator expression / nested def / lambda with a shadowing inner parameter) = 9 944 cells (quick: control cells + 1 000 seed-rotated); 408 nested / sequential pairs of the 16 constructs that introduce temporaries; 22 nests of two scopes with the SAME user name (functions directly / through a method / through an intermediate function, classes); suffix provenance (every random suffix of an output was drawn during that conversion). Known findings listed by explicit cell (builtins the generated code calls; __class__).",
     technique="symbolic co-execution of source and converted text under CrossHair (z3) over the capture matrix",
 )
 CLAIMED["C10"] = dict(
